@@ -288,6 +288,9 @@ func (s *stageIn) text() string {
 		}
 		return "| logfmt " + strings.Join(items, ", ")
 	case "distinct":
+		if len(s.Labels) > 0 {
+			return "| distinct " + strings.Join(namesText(s.Labels), ", ")
+		}
 		return "| distinct " + S(s.Label)
 	case "drop", "keep":
 		names := namesText(s.Labels)
@@ -482,6 +485,19 @@ func genStage(r *rand.Rand, allowStateful bool) stageIn {
 	case k < 8:
 		return stageIn{T: "logfmt"}
 	case k < 9 && allowStateful:
+		if r.Intn(2) == 0 {
+			// several labels: walked in order, each with its own memory
+			ls := IntsList{}
+			used := map[string]bool{}
+			for k := 2 + r.Intn(2); k > 0; k-- {
+				nm := pick(r, append(lqKeys, "app"))
+				if !used[nm] {
+					used[nm] = true
+					ls = append(ls, B(nm))
+				}
+			}
+			return stageIn{T: "distinct", Label: ls[0], Labels: ls}
+		}
 		return stageIn{T: "distinct", Label: B(pick(r, lqKeys))}
 	default:
 		n := 1 + r.Intn(2)
